@@ -83,3 +83,82 @@ Qed.
 Lemma failed_write_prefix : forall (chunks : list bytes) i j,
   exists k, concat (firstn i chunks) ++ firstn j (nth i chunks []) = firstn k (concat chunks).
 Proof. exact failed_write_prefix_gen. Qed.
+
+(* ---------------------------------------------------------------------------------------------------------------
+   A frame that is LOST as a whole (its two write calls failed, the application carried on): the reader's run over the
+   remaining frames.  [run_pre] is the run over a list of bodies made explicit: the objects yielded and the registry
+   reached, or None when a body raised. *)
+Section Dropped.
+Variable c : cfg.
+Variable HASH : desc -> Z.
+Variable depth : nat.
+
+Fixpoint run_pre (reg : registry) (bodies : list bytes) : list robj * option registry :=
+  match bodies with
+  | [] => ([], Some reg)
+  | b :: t =>
+      match decode_body c depth reg b with
+      | OHeader => run_pre reg t
+      | ODesc d => run_pre (reg_add HASH reg d) t
+      | OItem it => let '(out, r) := run_pre reg t in (RItem it :: out, r)
+      | OForeign => let '(out, r) := run_pre reg t in (RForeign :: out, r)
+      | OError => ([], None)
+      end
+  end.
+
+Lemma run_bodies_pre : forall bodies reg k,
+  run_bodies c HASH depth reg bodies k =
+  match run_pre reg bodies with
+  | (out, Some r) => let '(o, oc) := k r in (out ++ o, oc)
+  | (out, None) => (out, Raised)
+  end.
+Proof.
+  induction bodies as [|b t IH]; intros reg k; cbn [run_bodies run_pre].
+  - destruct (k reg) as [o oc]. reflexivity.
+  - destruct (decode_body c depth reg b) as [|d|it| |].
+    + apply IH.
+    + apply IH.
+    + rewrite IH. destruct (run_pre reg t) as [out [r|]]; [destruct (k r) as [o oc]|]; reflexivity.
+    + rewrite IH. destruct (run_pre reg t) as [out [r|]]; [destruct (k r) as [o oc]|]; reflexivity.
+    + reflexivity.
+Qed.
+
+Lemma run_bodies_app : forall l1 l2 reg k,
+  run_bodies c HASH depth reg (l1 ++ l2) k = run_bodies c HASH depth reg l1 (fun r => run_bodies c HASH depth r l2 k).
+Proof.
+  induction l1 as [|b t IH]; intros l2 reg k; cbn [app run_bodies]; [reflexivity|].
+  destruct (decode_body c depth reg b); try reflexivity; rewrite IH; reflexivity.
+Qed.
+
+(* The lost frame held a record (or the header, or a foreign object): the reader yields exactly what it yields on the
+   complete stream WITHOUT that one object -- every other record unaltered, in order, none skipped, none invented --
+   and ends the same way.  If a frame BEFORE the lost one already raised, nothing changes. *)
+Theorem dropped_item_frame : forall pre b post reg k,
+  match run_pre reg pre with
+  | (out, None) =>
+      run_bodies c HASH depth reg (pre ++ b :: post) k = (out, Raised) /\
+      run_bodies c HASH depth reg (pre ++ post) k = (out, Raised)
+  | (out, Some r) =>
+      let '(o, oc) := run_bodies c HASH depth r post k in
+      match decode_body c depth r b with
+      | OItem it =>
+          run_bodies c HASH depth reg (pre ++ b :: post) k = (out ++ RItem it :: o, oc) /\
+          run_bodies c HASH depth reg (pre ++ post) k = (out ++ o, oc)
+      | OForeign =>
+          run_bodies c HASH depth reg (pre ++ b :: post) k = (out ++ RForeign :: o, oc) /\
+          run_bodies c HASH depth reg (pre ++ post) k = (out ++ o, oc)
+      | OHeader =>
+          run_bodies c HASH depth reg (pre ++ b :: post) k = run_bodies c HASH depth reg (pre ++ post) k
+      | _ => True
+      end
+  end.
+Proof.
+  intros pre b post reg k.
+  rewrite !run_bodies_app. rewrite !(run_bodies_pre pre).
+  destruct (run_pre reg pre) as [out [r|]]; [|split; reflexivity].
+  cbn [run_bodies].
+  destruct (decode_body c depth r b) as [|d|it| |];
+    destruct (run_bodies c HASH depth r post k) as [o oc]; try exact I; try (split; reflexivity); reflexivity.
+Qed.
+
+End Dropped.
